@@ -140,6 +140,9 @@ func (a ArgumentConditions) Validate() []string {
 		if condition.Argument < 0 || condition.Argument > 5 {
 			problems = append(problems, fmt.Sprintf("argument must be between 0 and 5 (inclusive), but is %v", condition.Argument))
 		}
+		if !condition.Operation.isValid() {
+			problems = append(problems, fmt.Sprintf("invalid operation: %v", condition.Operation))
+		}
 	}
 	return problems
 }
@@ -169,6 +172,16 @@ const (
 )
 
 var Operations = []Operation{Equal, NotEqual, GreaterThan, LessThan, GreaterOrEqual, LessOrEqual, BitsSet, BitsNotSet}
+
+// isValid returns true if the operation is one of the defined Operations.
+func (o Operation) isValid() bool {
+	for _, operation := range Operations {
+		if o == operation {
+			return true
+		}
+	}
+	return false
+}
 
 // Unpack sets the Operation value based on the string.
 func (o *Operation) Unpack(s string) error {
